@@ -21,7 +21,8 @@ NT_RULE = ('state = (T, P, n) log-uniform in 50-3000 K, 1e-3-1e3 bar, 1e-3-1e3 m
            'liquid-root evaluation; distinct = distinct canonical JSON of the case')
 REQUIRED_ORACLES = ['Z1', 'Z2', 'Z2root', 'Z3', 'Z4', 'Z5']
 REQUIRED_CLASSES = ['roots:3', 'roots:1', 'T<Tc', 'T>Tc', 'root:liquid', 'root:gas', 'from_critical', 'state:dense_supercritical', 'state:light_gas_hot', 'state:critical_exact', 'state:near_critical', 'state:near_critical<=1e-5',
-                    'call:positional', 'hist:nearby_state:abs', 'hist:nearby_state:rel']
+                    'call:positional', 'hist:nearby_state:abs', 'hist:nearby_state:rel',
+                    'hist:narrow_type_call_first', 'stress:threads:own_objects', 'stress:threads:shared_object']
 REQUIRED_PROBES = ['vanDerWaalsEOS.get_Vm', 'IdealGasEOS.get_V']
 ASSUMPTIONS = ['back-substitution tolerance = 1e-10 * |dX/dlnV| + 1e-11*|X|: the cubic solver returns a '
                'volume with relative error <~1e-12, and the map V->P is ill-conditioned on the liquid root '
@@ -58,10 +59,27 @@ def directed(tier):
     D.append({'kind': 'ideal', 'T': 298.15, 'P': 1.0, 'n': 1.0})
     D.append({'kind': 'ideal', 'T': 3000.0, 'P': 1e-3, 'n': 1e3})
     D.append({'kind': 'defaults'})
+    D.append({'kind': 'threads', 'shared_object': False, 'loops': 200, 'states': [
+        {'a': 0.3640, 'b': 4.267e-5, 'T': 250.0, 'P': 15.0, 'n': 2.5}, {'a': 0.547, 'b': 30.52e-6, 'T': 500.0, 'P': 1.0, 'n': 1.0},
+        {'a': 0.00346, 'b': 2.38e-5, 'T': 300.0, 'P': 100.0, 'n': 0.1}, {'a': 0.1382, 'b': 3.186e-5, 'T': 120.0, 'P': 5.0, 'n': 3.0}]})
+    D.append({'kind': 'threads', 'shared_object': True, 'loops': 200, 'states': [
+        {'a': 0.3640, 'b': 4.267e-5, 'T': 250.0, 'P': 15.0, 'n': 2.5}, {'a': 0.3640, 'b': 4.267e-5, 'T': 400.0, 'P': 1.0, 'n': 1.0},
+        {'a': 0.3640, 'b': 4.267e-5, 'T': 300.0, 'P': 100.0, 'n': 0.1}]})
+    D.append({'kind': 'vdw', 'a': 0.3640, 'b': 4.267e-5, 'T': 300.0, 'P': 16.0, 'n': 1.0, 'narrow_first': 'float32'})
+    D.append({'kind': 'vdw', 'a': 0.3640, 'b': 4.267e-5, 'T': 2500.0, 'P': 0.0009765625, 'n': 1.0, 'narrow_first': 'float16'})
     return D
 
 
+def _gen_threads(rng):
+    return {'kind': 'threads', 'states': [{'a': _lu(rng, 0.003, 3), 'b': _lu(rng, 1e-5, 2e-4), 'T': _lu(rng, 50, 3000),
+                                           'P': _lu(rng, 1e-3, 1e3), 'n': _lu(rng, 1e-3, 1e3)}
+                                          for _ in range(rng.choice([3, 4, 6]))],
+            'shared_object': rng.random() < 0.5, 'loops': 150}
+
+
 def generate(rng, tier):
+    if rng.random() < 0.0008:
+        return _gen_threads(rng)
     if rng.random() < 0.01:
         return {'kind': 'critical_exact', 'a': _lu(rng, 0.003, 3), 'b': _lu(rng, 1e-5, 2e-4),
                 'ns': [_lu(rng, 1e-3, 1e3) for _ in range(3)]}
@@ -99,9 +117,17 @@ def generate(rng, tier):
             P = float('%.8g' % min(1e3, max(1e-3, Pc * rng.uniform(0.05, 1.0) * (T / Tc) ** 4)))
     elif mode == 'super' and Tc < 2900:
         T = float('%.8g' % rng.uniform(max(50.0, 1.001 * Tc), 3000.0))
+    narrow = None
+    if mode in ('any', 'super', 'sub') and rng.random() < 0.25:
+        # a state whose T and P are exactly representable in single / half precision: an earlier call on the same
+        # parameters passes them as np.float32 / np.float16 (a cached answer must not leak into the float call)
+        import numpy as np
+        narrow = rng.choice(['float32', 'float32', 'float16'])
+        T = float(getattr(np, narrow)(round(T)))
+        P = float(getattr(np, narrow)(2.0 ** round(math.log2(P))))
     if k == 'vdw':
-        return {'kind': k, 'a': a, 'b': b, 'T': T, 'P': P, 'n': n}
-    return {'kind': k, 'Tc': Tc, 'Pc': Pc, 'T': T, 'P': P, 'n': n}
+        return {'kind': k, 'a': a, 'b': b, 'T': T, 'P': P, 'n': n, 'narrow_first': narrow}
+    return {'kind': k, 'Tc': Tc, 'Pc': Pc, 'T': T, 'P': P, 'n': n, 'narrow_first': narrow}
 
 
 def install_probes(pr, ctx):
@@ -249,6 +275,16 @@ def _vdw(spec, ctx):
             e2 = ctx.call('Z5', {'step': 'from_critical'}, vanDerWaalsEOS.from_critical, Tc=tc, Pc=pc)
             if e2 is not core.NOVALUE:
                 ctx.close('Z5', [e2.a / a, e2.b / b], [1.0, 1.0], 1e-12, {'step': 'roundtrip_ab'})
+    if spec.get('narrow_first'):
+        import numpy as np
+        nt = getattr(np, spec['narrow_first'])
+        if float(nt(T)) == T and float(nt(P)) == P:
+            ctx.cls('hist:narrow_type_call_first')
+            for gas in (True, False):
+                try:        # the narrow-typed call is outside the documented types: whatever it does is not judged,
+                    e.get_Vm(T=nt(T), P=nt(P), gas_phase=gas)        # only what the float calls do afterwards
+                except Exception:
+                    ctx.extra['narrow_first_call_raised'] = ctx.extra.get('narrow_first_call_raised', 0) + 1
     vc = ctx.call('Z5', {'step': 'get_Vc'}, e.get_Vc, n=n)
     if vc is not core.NOVALUE:
         ctx.close('Z5', vc / (3 * n * b), 1.0, 1e-12, {'step': 'get_Vc'})
@@ -435,8 +471,72 @@ def _critical_exact(spec, ctx):
     ctx.nontrivial()
 
 
+def _threads(spec, ctx):
+    """Stress beyond the quantifier (which ranges over inputs only): several threads solve DIFFERENT states at the
+    same time; each must get exactly what it gets alone.  Correct code has no shared mutable state, so this can
+    never fire on it; a timeout is inconclusive."""
+    import sys
+    import threading
+    from pmutt.eos import vanDerWaalsEOS
+    ctx.cls('stress:threads' + (':shared_object' if spec.get('shared_object') else ':own_objects'))
+    ctx.nontrivial()
+    states = spec['states']
+    if spec.get('shared_object'):
+        shared = vanDerWaalsEOS(a=states[0]['a'], b=states[0]['b'])
+        objs = [shared for _ in states]
+    else:
+        objs = [vanDerWaalsEOS(a=st['a'], b=st['b']) for st in states]
+
+    def work(e, st):
+        vg = e.get_Vm(T=st['T'], P=st['P'], gas_phase=True)
+        vl = e.get_Vm(T=st['T'], P=st['P'], gas_phase=False)
+        V = e.get_V(T=st['T'], P=st['P'], n=st['n'])
+        return (float(vg), float(vl), float(V), float(e.get_P(T=st['T'], V=V, n=st['n'])),
+                float(e.get_T(V=V, P=st['P'], n=st['n'])), float(e.get_n(V=V, P=st['P'], T=st['T'])))
+    try:
+        alone = [work(e, st) for e, st in zip(objs, states)]
+    except Exception as ex:
+        ctx.fail('Z2', {'eos': 'vdw', 'schedule': 'sequential', 'exc': type(ex).__name__}, message=str(ex)[:200])
+        return
+    bad, errs = [], []
+    start = threading.Barrier(len(states))
+
+    def runner(i):
+        try:
+            start.wait(timeout=30)
+            for _ in range(spec.get('loops', 150)):
+                got = work(objs[i], states[i])
+                if got != alone[i]:
+                    bad.append({'thread': i, 'got': got, 'alone': alone[i]})
+                    return
+        except Exception as ex:
+            errs.append(repr(ex)[:200])
+    old = sys.getswitchinterval()
+    sys.setswitchinterval(1e-5)
+    try:
+        ths = [threading.Thread(target=runner, args=(i,), daemon=True) for i in range(len(states))]
+        for t in ths:
+            t.start()
+        for t in ths:
+            t.join(timeout=120)
+    finally:
+        sys.setswitchinterval(old)
+    if any(t.is_alive() for t in ths):
+        ctx.inconc('Z2', 'thread stress did not finish in time')
+        return
+    m = {'eos': 'vdw', 'schedule': 'threads'}
+    if errs:
+        ctx.fail('Z2', dict(m, what='exception'), message=errs[0])
+    elif bad:
+        ctx.fail('Z2', dict(m, what='result_differs_from_the_same_call_alone'), **bad[0])
+    else:
+        ctx.held('Z2')
+
+
 def run_case(spec, ctx):
     k = spec['kind']
+    if k == 'threads':
+        return _threads(spec, ctx)
     if k == 'critical_exact':
         return _critical_exact(spec, ctx)
     if k == 'ideal':
